@@ -146,7 +146,7 @@ package corerad
 //@   ghost local awaiting Bool
 //@   ghost local started Bool
 //@   requires P0: ctx != nil && a.minDelayBetweenRAs > 0 && a.minDelayBetweenRAs <= secs(3600) && advOK(a) && ifiOK(a.cfg) && conn != nil
-//@   assigns ghost.now, ghost.done, ghost.scheduled
+//@   assigns ghost.now, ghost.done, ghost.scheduled, ghost.sgCtx
 //@   at call time.Now() (t) when !ghost.started: ghost.lastFire = t ; ghost.started = true
 //@   at call time.Now() (t) when ghost.awaiting: ghost.trigger = t ; ghost.awaiting = false
 //@   loop 1 invariant M9: a != nil && advOK(a)
@@ -155,6 +155,7 @@ package corerad
 //@   loop 1 invariant M0: ghost.started && a.minDelayBetweenRAs > 0 && a.minDelayBetweenRAs <= secs(3600) && timeSane(ghost.now)
 //@   loop 1 invariant M1 [C06]: ghost.lastFire <= lastMulticast
 //@   loop 1 invariant M2 [C06]: lastMulticast <= ghost.now + a.minDelayBetweenRAs
+//@   loop 1 invariant M6 [C10]: sg != nil && egNeed(ghost.sgCtx, sg) == ctx.val && cancelOf(cancel) == ctx.val
 //@   at recv ipC(v): ghost.awaiting = true
 //@   at call Delay(sg, dl, fn) when !addrIsMulticast(ip): assert U2 [C07]: 0 <= dl && dl < ms(500)
 //@   at call Delay(sg, dl, fn) when addrIsMulticast(ip): assert R1 [C06]: ghost.now + dl >= ghost.lastFire + a.minDelayBetweenRAs ; assert R2 [C06]: ghost.now + dl <= ghost.trigger + a.minDelayBetweenRAs && ghost.now + dl >= ghost.trigger ; ghost.lastFire = ghost.now + dl
